@@ -11,6 +11,7 @@ import Proofs.HandlerDiscipline
 import PydapModel.RowHeap
 import PydapModel.RequestRows
 import Proofs.RowHeap
+import Proofs.Traffic
 namespace Pydap.C13
 open Pydap Pydap.Sched
 
@@ -234,6 +235,69 @@ theorem C13_request_noninterference (ds : Node) (hs : Served ds) (reqs : Nat →
          fun i => (C13_noninterference _ P h0 hD σ).2.2.2 (.inr (none, i)) rfl,
          fun t ht => (C13_complete_outputs _ P h0 hD σ t ht).1⟩
 
+open Pydap.RowHeap in
+/-- **Requests that fail — malformed requests, errors raised while the dataset is constrained or while the records
+    are read.**  Every thread's whole-request program (`C13_request_noninterference`) may be cut short at ANY step by
+    ANY exception (`cut t = some (k, e)`: after `k` steps `e` is raised and unwinds the request; `k = 0` is a request
+    `parse_ce` rejects before the copy; `none`: the request runs to its end).  The family is still `Disciplined`, so
+    under ANY schedule: every object of the served dataset and every source record keeps its initial value — also
+    when the request is abandoned between two stores —, every request the schedule lets finish, failed or not, has the
+    outputs of its solo run (the same values, the same exception), and a request rejected at once outputs exactly its
+    exception. -/
+theorem C13_request_interrupted (ds : Node) (hs : Served ds) (reqs : Nat → Req)
+    (src : List PObj) (stream : List PVal) (filts : Nat → List RFilt) (maps : Nat → List RMap) (peeks : Nat → Nat)
+    (cut : Nat → Option (Nat × String)) (h0 : Heap ReqLoc RVal) (σ : List Nat) :
+    let P := fun t => interrupted (requestProgram ds (reqs t) src stream (filts t) (maps t) (peeks t) t) (cut t)
+    Disciplined reqOwner P ∧
+    (∀ r : Ref, r.own = none → (run (init h0 P) σ).heap (.inl r) = h0 (.inl r)) ∧
+    (∀ i, (run (init h0 P) σ).heap (.inr (none, i)) = h0 (.inr (none, i))) ∧
+    (∀ t, (P t).length ≤ σ.count t → ((run (init h0 P) σ).th t).outs = (solo h0 (P t)).2.outs) ∧
+    (∀ t e, cut t = some (0, e) → 1 ≤ σ.count t → ((run (init h0 P) σ).th t).outs = [Emit.err e]) := by
+  intro P
+  have hD : Disciplined reqOwner P :=
+    disciplined_interrupted (C13_request_noninterference ds hs reqs src stream filts maps peeks h0 σ).1 cut
+  refine ⟨hD, fun r hr => (C13_noninterference _ P h0 hD σ).2.2.2 (.inl r) hr,
+    fun i => (C13_noninterference _ P h0 hD σ).2.2.2 (.inr (none, i)) rfl,
+    fun t ht => (C13_complete_outputs _ P h0 hD σ t ht).1, ?_⟩
+  intro t e hc h1
+  have hP : P t = interrupted (requestProgram ds (reqs t) src stream (filts t) (maps t) (peeks t) t) (some (0, e)) := by
+    simp only [P, hc]
+  have hlen : (P t).length ≤ σ.count t := by rw [hP]; simpa [interrupted] using h1
+  rw [(C13_complete_outputs _ P h0 hD σ t hlen).1, hP]
+  exact (solo_rejected h0 _ e).1
+
+open Pydap.RowHeap in
+/-- **The property's sentence, literally.**  Two worlds of traffic `w`, `w'` against the same served dataset and the same
+    served source — ANY other requests, any number of them, with any filters and maps, failing or not (`Traffic`) —
+    that agree only on what thread `t` itself asks for (its request, filters, maps, type lookups, failure point); ANY two
+    schedules `σ`, `σ'` (any histories, any interleavings) that let `t` finish.  Then `t`'s response is the same in both:
+    the same outputs, the same exception if it fails — a function of the served dataset and that request alone — and in
+    both worlds every object of the served dataset and every source record holds what it held before. -/
+theorem C13_response_function_of_dataset_and_request (ds : Node) (hs : Served ds) (src : List PObj) (stream : List PVal)
+    (w w' : Traffic) (t : Nat)
+    (hreq : w.reqs t = w'.reqs t) (hf : w.filts t = w'.filts t) (hm : w.maps t = w'.maps t)
+    (hp : w.peeks t = w'.peeks t) (hc : w.cut t = w'.cut t)
+    (h0 : Heap ReqLoc RVal) (σ σ' : List Nat)
+    (hfin : (w.prog ds src stream t).length ≤ σ.count t) (hfin' : (w'.prog ds src stream t).length ≤ σ'.count t) :
+    ((run (init h0 (w.prog ds src stream)) σ).th t).outs = ((run (init h0 (w'.prog ds src stream)) σ').th t).outs ∧
+    (∀ r : Ref, r.own = none →
+      (run (init h0 (w.prog ds src stream)) σ).heap (.inl r) = (run (init h0 (w'.prog ds src stream)) σ').heap (.inl r)) ∧
+    (∀ i, (run (init h0 (w.prog ds src stream)) σ).heap (.inr (none, i))
+        = (run (init h0 (w'.prog ds src stream)) σ').heap (.inr (none, i))) := by
+  have hprog : w.prog ds src stream t = w'.prog ds src stream t := by
+    simp only [Traffic.prog, hreq, hf, hm, hp, hc]
+  obtain ⟨-, a1, a2, a3, -⟩ := C13_request_interrupted ds hs w.reqs src stream w.filts w.maps w.peeks w.cut h0 σ
+  obtain ⟨-, b1, b2, b3, -⟩ := C13_request_interrupted ds hs w'.reqs src stream w'.filts w'.maps w'.peeks w'.cut h0 σ'
+  change ∀ r : Ref, r.own = none → (run (init h0 (w.prog ds src stream)) σ).heap (.inl r) = h0 (.inl r) at a1
+  change ∀ i, (run (init h0 (w.prog ds src stream)) σ).heap (.inr (none, i)) = h0 (.inr (none, i)) at a2
+  change ∀ t, (w.prog ds src stream t).length ≤ σ.count t →
+    ((run (init h0 (w.prog ds src stream)) σ).th t).outs = (solo h0 (w.prog ds src stream t)).2.outs at a3
+  change ∀ r : Ref, r.own = none → (run (init h0 (w'.prog ds src stream)) σ').heap (.inl r) = h0 (.inl r) at b1
+  change ∀ i, (run (init h0 (w'.prog ds src stream)) σ').heap (.inr (none, i)) = h0 (.inr (none, i)) at b2
+  change ∀ t, (w'.prog ds src stream t).length ≤ σ'.count t →
+    ((run (init h0 (w'.prog ds src stream)) σ').th t).outs = (solo h0 (w'.prog ds src stream t)).2.outs at b3
+  exact ⟨by rw [a3 t hfin, b3 t hfin', hprog], fun r hr => by rw [a1 r hr, b1 r hr], fun i => by rw [a2 i, b2 i]⟩
+
 /-! non-vacuity -/
 
 section RowExamples
@@ -327,5 +391,33 @@ open Pydap.RowHeap in
     stores and the record stores are both in it -/
 example : (requestProgram exDs (exReqs 0) exSrc [.ref (.src 0)] [.truthy] [.nest 1 exPred, .fixNested [false, true]] 1 0).length
     = (program exDs 0 (exReqs 0)).length + 3 := by decide +kernel
+
+open Pydap.RowHeap in
+/-- interrupted requests are real programs: the example request cut after 40 stores is 41 steps long and ends in the
+    exception; cut at 0 it is the exception alone; an uncut one is the whole-request program -/
+example :
+    (interrupted (requestProgram exDs (exReqs 0) exSrc [.ref (.src 0)] [.truthy] [.nest 1 exPred] 1 0)
+      (some (40, "KeyError"))).length = 41 ∧
+    (interrupted (requestProgram exDs (exReqs 0) exSrc [.ref (.src 0)] [.truthy] [.nest 1 exPred] 1 0)
+      (some (0, "ConstraintExpressionError"))).length = 1 ∧
+    interrupted (requestProgram exDs (exReqs 0) exSrc [.ref (.src 0)] [.truthy] [.nest 1 exPred] 1 0) none
+      = requestProgram exDs (exReqs 0) exSrc [.ref (.src 0)] [.truthy] [.nest 1 exPred] 1 0 := by
+  refine ⟨?_, ?_, rfl⟩
+  · have : 40 ≤ (requestProgram exDs (exReqs 0) exSrc [.ref (.src 0)] [.truthy] [.nest 1 exPred] 1 0).length := by
+      decide +kernel
+    simp [interrupted, List.length_take, Nat.min_eq_left this]
+  · simp [interrupted]
+
+open Pydap.RowHeap in
+/-- two different worlds that agree on thread 0 only (in the second, thread 1 sends another request and thread 2 is
+    rejected at once): the hypotheses of `C13_response_function_of_dataset_and_request` are satisfiable and non-trivial -/
+example :
+    let w : Traffic := ⟨exReqs, fun _ => [.truthy], fun _ => [.nest 1 exPred], fun _ => 1, fun _ => none⟩
+    let w' : Traffic := ⟨fun t => if t = 0 then exReqs 0 else exReqs 0, fun _ => [.truthy],
+      fun t => if t = 0 then [.nest 1 exPred] else [], fun _ => 1,
+      fun t => if t = 2 then some (0, "ConstraintExpressionError") else none⟩
+    w.reqs 0 = w'.reqs 0 ∧ w.maps 0 = w'.maps 0 ∧ w.cut 0 = w'.cut 0 ∧ w.maps 1 ≠ w'.maps 1 ∧ w.cut 2 ≠ w'.cut 2 := by
+  intro w w'
+  exact ⟨rfl, rfl, rfl, fun h => by simp [w, w'] at h, fun h => by simp [w, w'] at h⟩
 
 end Pydap.C13
